@@ -115,21 +115,21 @@ Qed.
 Lemma do_on_disconnect_F rc fb s : Good s -> incb s = false -> Post 0 s (do_on_disconnect nested rc fb s).
 Proof. intros HG Hi. unfold do_on_disconnect. apply run_site_F; [exact HG|reflexivity|intros _; exact Hi]. Qed.
 
-Lemma lost_tail_F rc fb s : Good s -> incb s = false -> Post 0 s (fst (lost_tail nested rc fb s)).
+Lemma lost_F r rc fb s : Good s -> incb s = false -> Post 0 s (fst (lost c nested r rc fb s)).
 Proof.
-  intros HG Hi. pose proof HG as [Hd Hc]. unfold lost_tail.
-  assert (G : forall x r, Post 0 s (do_on_disconnect nested r fb (set_cs x s))).
-  { intros x r. apply (Post_trans 0 0 s (set_cs x s)); [apply Post_frame; auto|].
-    apply do_on_disconnect_F; [split; [exact Hd|exact Hc]|exact Hi]. }
+  intros HG Hi. pose proof HG as [Hd Hc]. unfold lost.
+  assert (G : forall x r', Post 0 s (do_on_disconnect nested r' fb (sock_close c nested r (set_cs x s)))).
+  { intros x r'.
+    assert (P1 : Post 0 s (set_cs x s)) by (apply Post_frame; auto).
+    pose proof (sock_close_F r _ (Good_post _ _ _ HG P1)) as P2.
+    pose proof (Post_trans 0 0 _ _ _ P1 P2) as P12.
+    apply (Post_trans 0 0 _ _ _ P12). apply do_on_disconnect_F; [eapply Good_post; eassumption|].
+    destruct P12 as (_ & A & _). congruence. }
   destruct (disc_state s); cbn [fst]; apply G.
 Qed.
 
 Lemma loop_rc_handle_F rc s : Good s -> incb s = false -> Post 0 s (fst (loop_rc_handle c nested rc s)).
-Proof.
-  intros HG Hi. unfold loop_rc_handle. pose proof (sock_close_F RError s HG) as P1.
-  apply (Post_trans 0 0 _ _ _ P1). apply lost_tail_F; [eapply Good_post; eassumption|].
-  destruct P1 as (_ & A & _). congruence.
-Qed.
+Proof. intros HG Hi. unfold loop_rc_handle. apply lost_F; assumption. Qed.
 
 (* the iteration bound of _packet_write *)
 Definition mu (s : st) : nat :=
@@ -180,6 +180,8 @@ Proof.
       { apply (Post_trans 0 0 _ _ _ Pa). apply sock_close_F. eapply Good_post; eassumption. }
       assert (Pc : forall s', Post 0 s1 s' -> Post 0 s s').
       { intros s' (A1 & A2 & A3 & A4). unfold Post, M in *. rewrite F3, F4 in *. rewrite Eq. cbn [length]. repeat split; try congruence; lia. }
+      destruct (sock (do_on_disconnect nested 0 false (emit (Tx id KDisconnect) s1))) as [id'|]; [|apply Pc; exact Pa].
+      destruct (id' =? id); [|apply Pc; exact Pa].
       destruct (cs (sock_close c nested RDiscWritten (do_on_disconnect nested 0 false (emit (Tx id KDisconnect) s1))));
         try (apply Pc; exact Pb).
     + apply Hnext. apply (Post_trans 0 0 _ _ _ P2).
@@ -220,9 +222,9 @@ Qed.
 Lemma packet_queue_F k s : Good s -> Post 1 s (fst (packet_queue c nested k s)).
 Proof.
   intros HG. pose proof HG as [Hd Hc]. unfold packet_queue.
-  set (s1 := set_outq (outq s ++ [mkQ k false]) s).
+  set (s1 := set_outq (match k with KConnect => mkQ k false :: outq s | _ => outq s ++ [mkQ k false] end) s).
   assert (P1 : Post 1 s s1).
-  { unfold Post, M, s1. ssimpl. rewrite app_length. cbn [length]. repeat split; auto; lia. }
+  { unfold Post, M, s1. ssimpl. destruct k; rewrite ?app_length; cbn [length]; repeat split; auto; lia. }
   destruct (negb (c_ext c) && negb (incb s1)) eqn:E.
   - apply andb_true_iff in E as [_ E]. apply negb_true_iff in E.
     apply (Post_trans 1 0 _ _ _ P1). apply loop_write_F; [eapply Good_post; eassumption|exact E].
@@ -285,7 +287,7 @@ Qed.
 Lemma after_read_F r s0 : Good (fst r) -> incb (fst r) = false -> Post 1 s0 (fst r) -> Post 1 s0 (fst (after_read c nested r)).
 Proof.
   destruct r as [s [rc|]]; cbn [fst after_read]; intros HG Hi P0; [|exact P0].
-  destruct (rc >? 0); [|exact P0].
+  destruct (rc >? 0); [|exact P0]. destruct (sock s); [|exact P0].
   pose proof (loop_rc_handle_F rc s HG Hi) as P1. destruct (loop_rc_handle c nested rc s) as [s' rc'].
   cbn [fst] in *. exact (Post_trans 1 0 _ _ _ P0 P1).
 Qed.
@@ -303,9 +305,11 @@ Proof.
     apply after_read_F; [eapply Good_post; eassumption| |exact P12]. destruct P12 as (_ & A & _). congruence. }
   assert (Hack : forall rc, Post 1 s (fst (after_read c nested (handle_connack nested rc s)))).
   { intros rc. unfold handle_connack.
-    assert (P1 : Post 0 s (if rc =? 0 then set_cs CsConnected s else s)).
-    { destruct (rc =? 0); [apply Post_frame; auto|apply Post_refl; exact Hc]. }
-    assert (P2 : Post 0 s (run_site nested SiConnect true (CbConnect rc) (if rc =? 0 then set_cs CsConnected s else s))).
+    set (sx := if rc =? 0 then match cs s with CsDisconnecting => s | _ => set_cs CsConnected s end else s).
+    assert (P1 : Post 0 s sx).
+    { unfold sx. destruct (rc =? 0); [|apply Post_refl; exact Hc].
+      destruct (cs s); try (apply Post_refl; exact Hc); apply Post_frame; auto. }
+    assert (P2 : Post 0 s (run_site nested SiConnect true (CbConnect rc) sx)).
     { apply (Post_trans 0 0 _ _ _ P1). apply run_site_F; [eapply Good_post; eassumption|reflexivity|].
       intros _. destruct P1 as (_ & A & _). congruence. }
     apply after_read_F; cbn [fst]; [eapply Good_post; eassumption| |apply (Post_weaken 0 1); [lia|exact P2]].
@@ -315,11 +319,9 @@ Proof.
   - destruct (proto s =? 4); [apply Hdown|apply Hack].
   - destruct (proto s =? 5).
     + unfold handle_server_disconnect.
-      pose proof (sock_close_F RServerDisc s HG) as P1.
-      assert (Hi1 : incb (sock_close c nested RServerDisc s) = false) by (destruct P1 as (_ & A & _); congruence).
-      pose proof (lost_tail_F rc true _ (Good_post _ _ _ HG P1) Hi1) as P2.
-      destruct (lost_tail nested rc true (sock_close c nested RServerDisc s)) as [s' x]. cbn [fst] in *.
-      apply (Post_weaken 0 1); [lia|]. exact (Post_trans 0 0 _ _ _ P1 P2).
+      pose proof (lost_F RServerDisc rc true s HG Hi) as P2.
+      destruct (lost c nested RServerDisc rc true s) as [s' x]. cbn [fst] in *.
+      apply (Post_weaken 0 1); [lia|]. exact P2.
     + apply after_read_F; assumption.
   - apply after_read_F; assumption.
   - apply after_read_F; assumption.
@@ -330,8 +332,7 @@ Qed.
 
 Lemma keepalive_close_F s : Good s -> incb s = false -> Post 0 s (keepalive_close c nested s).
 Proof.
-  intros HG Hi. unfold keepalive_close. pose proof (sock_close_F RKeepalive s HG) as P1.
-  apply (Post_trans 0 0 _ _ _ P1). apply lost_tail_F; [eapply Good_post; eassumption|]. destruct P1 as (_ & A & _). congruence.
+  intros HG Hi. unfold keepalive_close. apply lost_F; assumption.
 Qed.
 
 Lemma loop_misc_F m s : Good s -> incb s = false -> Post 1 s (fst (loop_misc c nested m s)).
